@@ -309,7 +309,8 @@ def finish(run, level, coverage, assumptions):
     for fid, (n, text) in sorted(run.known.items()):
         print("KNOWN-FINDING: property=%s %s [%s, %d observation(s)]" % (run.prop, text, fid, n))
     coverage["known_findings_hit"] = {k: v[0] for k, v in run.known.items()}
-    write_evidence(run, level, coverage, assumptions, nviol)
+    if not getattr(run, "is_replay", False):      # a replay re-runs one witness: it is not evidence
+        write_evidence(run, level, coverage, assumptions, nviol)
     print("%s %s seed=%d: states=%d transitions=%d traces=%s evaluations=%s nontrivial=%s wall=%.1fs %s" % (
         run.prop, run.tier, run.seed, coverage.get("states", 0), coverage.get("transitions", 0),
         coverage.get("traces_validated_against_impl"), coverage.get("evaluations"),
